@@ -16,7 +16,8 @@ import library_family
 from common import VERIF, ToolError, build_harness, log, run, scratch, tlc, tlc_failed
 
 BATCHES = [("core", 300, ["-variants", "fresh,second,second"]), ("memo", 250, ["-variants", "second,fresh"]),
-           ("control", 120, ["-variants", "second"])]
+           ("control", 120, ["-variants", "second"]), ("memo", 150, ["-calls", "3", "-variants", "fresh,second,json"]),
+           ("core", 120, ["-variants", "xproc"])]
 
 
 def check():
